@@ -180,12 +180,18 @@ def observe(res, drop_connection=False):
 def compare(r, recipe, apps, areq, what, sse=False):
     """apps: {'wsgi': app, 'asgi': app}. Runs both, records a violation on any difference."""
     obs = {}
-    for iface in ("wsgi", "asgi"):
-        try:
-            res = run(iface, apps[iface], areq)
-        except UnicodeEncodeError:
-            return  # request not representable on this gateway
-        obs[iface] = observe(res, drop_connection=sse)
+    import time as _time
+    real_time = _time.time
+    _time.time = lambda: 1_800_000_000.25  # the two runs must see the same clock (cookie Expires)
+    try:
+        for iface in ("wsgi", "asgi"):
+            try:
+                res = run(iface, apps[iface], areq)
+            except UnicodeEncodeError:
+                return  # request not representable on this gateway
+            obs[iface] = observe(res, drop_connection=sse)
+    finally:
+        _time.time = real_time
     r.count("evaluations")
     a, b = obs["wsgi"], obs["asgi"]
     if a[0] == "response" and 200 <= (a[1] or 0) < 400 or b[0] == "response" and 200 <= (b[1] or 0) < 400:
@@ -308,6 +314,7 @@ def shards(tier, seed):
     out += [("small", k, 8) for k in range(8)]
     out += [("streams",), ("files",)]
     out += [("apps", name) for name in ("mounts", "hosts", "middleware-over-mounts", "files-handle404", "pages-private")]
+    out += [("staticpaths", k, 4) for k in range(4)]
     return out
 
 
@@ -376,6 +383,28 @@ def run_shard(desc, tier):
             r.sample({"recipe": "FileResponse chunk_size=4", "request": {"Range": "bytes=0-7"}})
         finally:
             t.close()
+    elif kind == "staticpaths":
+        # every path of the static-file alphabet (C07) below the mounted Pages and Files apps, with conditional headers: pure differential
+        from .c07 import SEGS
+        _, k, n = desc
+        t = Tree()
+        try:
+            apps = {i: compositions(i, t)["mounts"] for i in ("wsgi", "asgi")}
+            depth = 2 if tier == "quick" else 3
+            segs = [x for x in SEGS if x not in ("..name",)] + ["guide", "page", "index"]
+            paths = []
+            for d in range(1, depth + 1):
+                for combo in itertools.product(segs, repeat=d):
+                    for trail in ("", "/"):
+                        paths.append("/" + "/".join(combo) + trail)
+            for path in paths[k::n]:
+                for mount in ("/docs", "/static", "/deep/er"):
+                    for extra in ([], [("If-None-Match", "*")]):
+                        areq = SV.AReq(path=mount + path, headers=[("Host", "a.com")] + extra)
+                        compare(r, "app:mounts-static", apps, areq, f"GET {mount + path!r} {extra}")
+            r.sample({"recipe": "static-file alphabet below mounts", "paths": len(paths), "mounts": ["/docs", "/static", "/deep/er"]})
+        finally:
+            t.close()
     else:
         name = desc[1]
         t = Tree()
@@ -424,6 +453,8 @@ def replay(w):
         fams = [("sequences",)]
     elif fam == "file":
         fams = [("files",)]
+    elif rec == "app:mounts-static":
+        fams = [("staticpaths", k, 4) for k in range(4)]
     else:
         fams = [("apps", rec.split(":", 1)[1])]
     for f in fams:
